@@ -862,6 +862,24 @@ theorem write_chunks (text : Bytes) (refs : List (Bytes × Nat)) (hh : validHead
   rw [hw]
   exact file_roundtrip text refs hh recs hv _ (by simp [gunzip])
 
+/-- **chunked reading of a whole file**: header, then chunks — for every valid header, every list of valid records, every
+BGZF blocking and every chunk size at least the largest record, `read_chunks` yields the file's references and, chunk after
+chunk, exactly its records -/
+theorem file_chunked (text : Bytes) (refs : List (Bytes × Nat)) (hh : validHeader text refs = true)
+    (recs : List Rec) (hv : ∀ r ∈ recs, valid refs.length r = true) (members : List Bytes)
+    (hm : gunzip members = encodeHeader text refs ++ encodeAll recs)
+    (k : Nat) (hk : ∀ r ∈ recs, (encodeRec r).length ≤ k) :
+    ∃ chunks, readFileChunks false false members k = some (refs, chunks) ∧
+      (chunks.map (·.1)).flatten = recs.map (view (refs.map Prod.fst)) ∧
+      readFile false false members = some (refs, (chunks.map (·.1)).flatten) := by
+  have hv' : ∀ r ∈ recs, valid (refs.map Prod.fst).length r = true := by
+    intro r hr; rw [List.length_map]; exact hv r hr
+  have hc := chunked (refs.map Prod.fst) recs hv' k hk
+  have hd := decode_encode (refs.map Prod.fst) recs hv'
+  refine ⟨readAllChunks false false (refs.map Prod.fst) k (encodeAll recs), ?_, by rw [hc, hd], ?_⟩
+  · simp only [readFileChunks, hm, parseHeader_encode text refs hh]
+  · rw [file_roundtrip text refs hh recs hv members hm, hc, hd]
+
 /-- Gen obligation: the EOF block the writer appends is the 28-byte block of the specification; as a gzip
 member it has an empty payload (ISIZE = 0, last four bytes) -/
 theorem gen_eof_marker : Gen.C16.eofMarker = specEof ∧ specEof.drop 24 = [0, 0, 0, 0] := by decide
@@ -1482,6 +1500,33 @@ theorem encodeAll_injective (nref : Nat) (a b : List Rec) (ha : ∀ r ∈ a, spe
   rw [h, h2] at h1
   exact (Option.some.inj h1).symm
 
+/-- **a chunk cut anywhere**: cutting the record area after ANY number of bytes, the decoder returns exactly the records
+that are complete before the cut (the longest such prefix) and reports exactly their bytes as used; the partial record
+after them is left for the next read -/
+theorem decodeChunk_cut (names : List Bytes) (recs : List Rec) (hv : ∀ r ∈ recs, valid names.length r = true)
+    (n : Nat) (hn : n ≤ (encodeAll recs).length) :
+    ∃ done todo, recs = done ++ todo ∧ (encodeAll done).length ≤ n ∧
+      (∀ r rs, todo = r :: rs → n < (encodeAll done).length + (encodeRec r).length) ∧
+      decodeChunk false false names ((encodeAll recs).take n) = (done.map (view names), (encodeAll done).length) := by
+  obtain ⟨d, t, hdt, hle, hcase⟩ := split_at recs n hn
+  have hvd : ∀ r ∈ d, valid names.length r = true := fun r hr => hv r (by simp [hdt, hr])
+  have hvt : ∀ r ∈ t, valid names.length r = true := fun r hr => hv r (by simp [hdt, hr])
+  have hcut : (encodeAll recs).take n = encodeAll d ++ (encodeAll t).take (n - (encodeAll d).length) := by
+    rw [hdt, encodeAll_append, List.take_append]
+    congr 1
+    apply List.take_of_length_le; omega
+  have hstops : Stops ((encodeAll t).take (n - (encodeAll d).length)) := by
+    rcases hcase with ⟨ht, _⟩ | ⟨q, qs, ht, hlt⟩
+    · rw [ht]; simp [encodeAll, stops_nil]
+    · rw [ht, encodeAll_cons]
+      exact stops_prefix names.length q (hvt q (by simp [ht])) _ _ (by omega)
+  refine ⟨d, t, hdt, hle, ?_, ?_⟩
+  · intro r rs ht
+    rcases hcase with ⟨ht', _⟩ | ⟨q, qs, ht', hlt⟩
+    · rw [ht'] at ht; cases ht
+    · rw [ht'] at ht; cases ht; exact hlt
+  · rw [hcut]; exact decodeChunk_encode names d hvd _ hstops
+
 /-! ### corollaries: chunk-size independence, idempotent write -/
 
 /-- any two admissible chunk sizes deliver the same records (chunk boundaries may differ, the record stream does not) -/
@@ -1742,6 +1787,7 @@ theorem staleOffsets_unsound :
     decodeAt false false exNames compacted 0 = view exNames exR3 ∧
     (decodeAt false false exNames compacted 106).name ≠ exR3.name := by decide +kernel
 
+example : (decodeChunk false false exNames ((encodeAll [exR1, exR2, exR3]).take 120)).1.length = 2 := by decide +kernel
 example : progOK 3 [.select [2, 0, 2], .write, .select [1, 2], .fields, .write] = true := by decide
 example : runProg exNames (Ext.ofChunk (addNewline (encodeAll [exR1, exR2, exR3]))) [.select [2, 0, 2], .write, .select [1, 2], .fields, .write]
     = [.written (encodeAll [exR3, exR1, exR3]), .read [view exNames exR1, view exNames exR3], .written (encodeAll [exR1, exR3])] := by
